@@ -106,6 +106,27 @@ def foreign_rephase(text, idx):
     return "\n".join(out) + "\n"
 
 
+def strip_ps(text, idx):
+    """the chosen (phased) records keep their phased genotype but lose the PS value (phased by a source that writes
+    no phase set, e.g. a pedigree or population phaser)"""
+    out = []
+    ri = 0
+    for line in text.splitlines():
+        if line.startswith("#") or not line:
+            out.append(line)
+            continue
+        t = line.split("\t")
+        if ri in idx:
+            fmt = t[8].split(":")
+            d = dict(zip(fmt, t[9].split(":")))
+            if "|" in d.get("GT", "") and "PS" in d:
+                d["PS"] = "."
+            t[9] = ":".join(d.get(k, ".") for k in fmt)
+        out.append("\t".join(t))
+        ri += 1
+    return "\n".join(out) + "\n"
+
+
 _scratch = None
 
 
@@ -207,7 +228,7 @@ def judge(sc):
                 variants_of_history.append((keep + fixed_keep, True))
     for keep, foreign in variants_of_history:
         if True:
-            hist = ["phase", "haplotag", f"unphase-all-but-{list(keep)}" + ("-rephased-by-another-source" if foreign else ""), "haplotagphase"]
+            hist = ["phase", "haplotag", f"unphase-all-but-{list(keep)}" + ("-rephased-by-another-source" if foreign is True else "-without-PS-value" if foreign else ""), "haplotagphase"]
             inp = os.path.join(d, "hp_in.vcf")
             if not keep:
                 try:
@@ -217,8 +238,10 @@ def judge(sc):
                     continue
             else:
                 txt = partial_unphase(text0, set(keep))
-                if foreign:
+                if foreign is True:
                     txt = foreign_rephase(txt, set(k_ for k_ in keep if rec_pos[k_][0] == "chrA"))
+                elif foreign == "nops":
+                    txt = strip_ps(txt, set(k_ for k_ in keep if rec_pos[k_][0] == "chrA"))
                 with open(inp, "w") as f:
                     f.write(txt)
             trans += 1
@@ -241,7 +264,8 @@ def judge(sc):
                 g_in, ps_in = rin["calls"][0].get("GT"), rin["calls"][0].get("PS")
                 was_phased = "|" in (g_in or "")
                 if was_phased:
-                    if (g_out, ps_out) != (g_in, ps_in):
+                    # a phased genotype without a PS value belongs to the implicit phase set 0 (VCF specification)
+                    if (g_out, ps_out if ps_out not in (None, ".", "") else "0") != (g_in, ps_in if ps_in not in (None, ".", "") else "0"):
                         sub = "uncovered" if not cov_ps[ri] else "covered"
                         v = V("phased-input-altered", f"record {ri} ({rec['pos']}) was {g_in}:{ps_in} in the input of haplotagphase and is {g_out}:{ps_out} in its output ({sub} by tagged reads)", hist)
                         v["signature"] += ":" + sub
